@@ -214,6 +214,10 @@ structure Observed where
   chains : Nat
   /-- a CertificateRequest was seen in the server's flight (`none`: the flight was never sent) -/
   certReq : Option Bool := none
+  /-- which certificate heads `PeerCertificates` / `VerifiedChains[0]` (an identifier of its bytes;
+  `none`: the list is empty or the identity was not observed) -/
+  peerLeaf : Option String := none
+  chainLeaf : Option String := none
   deriving DecidableEq, Repr, Inhabited
 
 /-- Judgement of one full handshake by the property: `none` = fine. -/
@@ -228,8 +232,27 @@ def judgeFull (p : Policy) (b : Behaviour) (o : Observed) : Option (String × St
   else if o.completed && !FlowOK p b then some ("flow", "completed on a client flight the standard does not allow")
   else if !o.completed && ShouldComplete p b then some ("refused", s!"failed although {p.name} is satisfied and the client behaved correctly")
   else if o.completed && o.peerCerts != 0 && !b.pop then some ("pop", "peer certificates reported without a checked proof of possession")
-  else if o.chains != 0 && !(b.relied.all (fun c => c.okAnyUsage) && b.present) then
+  else if o.chains != 0 && !b.present then
+    -- nothing was presented on this connection: there is no chain that could have been verified
+    some ("chains", "verified chains reported although this client presented no certificate")
+  else if o.chains != 0 && !(b.relied.all (fun c => c.okAnyUsage)) then
     some ("chains", "verified chains reported for a certificate that does not chain to the client roots")
+  else none
+
+/-- **Whose certificates are reported.**  "After completion a non-empty peer-certificate list means
+that proof was checked, and non-empty verified chains mean the chain was verified": the proof and
+the chain of the client of THIS connection — `presented` is the certificate that heads the list this
+client sent (`none`: it presented nothing).  For a resumed handshake the client presents nothing
+anew and the connection legitimately carries the certificates of the handshake that created the
+session: `presented` is then the certificate that client presented.  A connection that reports the
+certificate or the chain of anybody else attributes a verification to a client that never underwent
+it.  (That a client that presented nothing has no peer certificates / chains at all is the matter of
+`judgeFull` / `judgeResumed`.)  `none` = fine. -/
+def judgeIdentity (presented : Option String) (o : Observed) : Option (String × String) :=
+  if o.completed && o.chains != 0 && o.chainLeaf.isSome && o.chainLeaf != presented then
+    some ("chains-leaf", "verified chains reported whose leaf is not the certificate this client presented")
+  else if o.completed && o.peerCerts != 0 && o.peerLeaf.isSome && o.peerLeaf != presented then
+    some ("peers-leaf", "peer certificates reported that are not the ones this client presented")
   else none
 
 /-! ### resumption -/
